@@ -763,6 +763,21 @@ func (r *c39Repo) invocations(rng *kit.RNG, damaged bool) []c39Inv {
 			return runPrune(ctx, po, gopts, gopts.Term)
 		})
 	}
+	// prune --dry-run --unsafe-recover-no-free-space <repo id>, with the exclusive lock: the recovery
+	// mode rebuilds its options and must keep the dry-run flag (seeded change C39-1)
+	{
+		po, pd := c39PruneOpts(rng, r.cfg)
+		add("prune-dry-run-unsafe-recovery", pd+" unsafe-recover-no-free-space", c39LockOK, true, func(ctx context.Context, gopts global.Options) error {
+			ng := gopts
+			ng.NoLock = true
+			repo, err := global.OpenRepository(ctx, ng, restic.NewNoopPrinter())
+			if err != nil {
+				return err
+			}
+			po.UnsafeNoSpaceRecovery = repo.Config().ID
+			return runPrune(ctx, po, gopts, gopts.Term)
+		})
+	}
 
 	// ---- lock-free readers
 	nl := func(kind, desc string, mayFail bool, run func(ctx context.Context, gopts global.Options) error) {
